@@ -20,7 +20,7 @@ from ..context import Context
 from ..report import Report
 from ..facts import Facts, Matcher, ANY, is_const, const_val, describe, describe_fact
 from ..rules import stores_to_field, rets, guarded_site, success_edges, blocks_reachable_from, require_on_success
-from ..bytemap import find_byte_loops, _ranges
+from ..bytemap import find_byte_loops, find_search_replace, _ranges
 from ..callgraph import CallGraph
 from ..mem import root
 
@@ -149,6 +149,13 @@ def name_path_rules(rep, ctx, mod, cg, prefix=""):
                     ok = True
                     rep.sample({"loop": fn.cname, "paths": bl.path_detail, "final_values": _ranges(bl.final_values)})
             if not ok:
+                # the same with the library's search function: for (p = strchr(buf, '/'); p != NULL; p = strchr(p, '/')) *p = '_';
+                for sr in find_search_replace(fn, F):
+                    if sr.kind == "strchr" and sr.byte == SLASH and sr.repl != SLASH and M.equiv(M.strip(sr.start, ("bitcast",)), M.strip(v, ("bitcast",))) and \
+                            fn.dominates(sr.loop["header"], st.block.id):
+                        ok = True
+                        rep.sample({"loop": fn.cname, "form": "strchr search-and-replace of '/' by 0x%02x" % sr.repl})
+            if not ok:
                 # scrub after the store: a byte loop over header->filename itself (read back through the field), from its first byte to the
                 # NUL, leaving no '/', on every path from the store to a successful return
                 for bl in loops:
@@ -192,12 +199,15 @@ def name_path_rules(rep, ctx, mod, cg, prefix=""):
             for x_ in b_.succs:
                 if M.find_fact(("eq", ("call", "strrchr", [ANY, SLASH]), 0), F.edge_facts(b_.id, x_))[0] is not None:
                     cut_.add((b_.id, x_))
+                # (no name at all: nothing that could contain a '/')
+                if M.find_fact(("eq", ("load", ("field", HDR, "filename", ANY)), 0), F.edge_facts(b_.id, x_))[0] is not None:
+                    cut_.add((b_.id, x_))
         bad_ = []
         for vv, pb, b in success_edges(F, sp):
             tgt = pb if pb is not None else b
             if any(st_.block.id == tgt for st_ in sts_):
                 continue
-            if F.reaches_avoiding(0, tgt, cut_) or tgt == 0:
+            if F.reaches_avoiding(0, tgt, cut_) or (tgt == 0 and not any(e_[0] == 0 for e_ in cut_ if (0, b) == e_ or pb is None)):
                 bad_.append(tgt)
         rep.check(rid, not bad_ and bool(sts_), "split_header_filename returns success without splitting only when no '/' was found", sp.file,
                   None if not bad_ else "a successful return (bb%s) is reachable with a '/' found and the name left as it is: the returned file name can contain '/'" % bad_,
@@ -238,7 +248,15 @@ def name_path_rules(rep, ctx, mod, cg, prefix=""):
         loops = find_byte_loops(pl, F)
         ok = [bl for bl in loops if bl.start_ok and bl.step_ok and bl.exit == "counted" and bl.unvisited_ok and BSLASH not in bl.final_values
               and M.strip(bl.bound) == ("v", pl.params[2].id)]
-        rep.check(rid, len(ok) == 1, "in-header names: every byte below data_len has '\\\\' replaced (by '/')", pl.file,
+        srs = [sr for sr in find_search_replace(pl, F) if sr.kind == "memchr" and sr.byte == BSLASH and sr.repl == SLASH and sr.length is not None and
+               M.strip(sr.length) == ("v", pl.params[2].id)]
+        if not ok and len(srs) == 1:
+            # while ((p = memchr(p, '\\\\', end - p)) != NULL) *p++ = '/';  over [buf, buf + data_len)
+            rep.ok(rid, "in-header names: every '\\\\' below data_len is found by memchr and replaced by '/'", None, pl.file)
+            srs_done = True
+        else:
+            srs_done = False
+        rep.check(rid, len(ok) == 1 or srs_done, "in-header names: every byte below data_len has '\\\\' replaced (by '/')", pl.file,
                   "%s" % [(_ranges(b.final_values), b.exit) for b in loops], function=pl.cname, obj="backslash")
         for bl in ok:
             rep.check(rid, any(p["stores"] == SLASH and p["admits"] == "0x5c" for p in bl.path_detail), "the replacement byte is '/'", pl.file, None, function=pl.cname, obj="repl")
@@ -249,7 +267,21 @@ def name_path_rules(rep, ctx, mod, cg, prefix=""):
         M = Matcher(pd)
         loops = find_byte_loops(pd, F)
         ok = [bl for bl in loops if bl.start_ok and bl.step_ok and bl.exit == "counted" and bl.unvisited_ok and 0xFF not in bl.final_values]
-        rep.check(rid, len(ok) == 1, "path header: every byte below the (possibly extended) length has 0xFF replaced (by '/')", pd.file,
+        srs = [sr for sr in find_search_replace(pd, F) if sr.kind == "memchr" and sr.byte == 0xFF and sr.repl == SLASH and sr.length is not None]
+        srs_done = False
+        if not ok and len(srs) == 1:
+            vals = set()
+            for s_, fs_ in F.sources(srs[0].length):
+                if M.strip(s_) == ("v", pd.params[2].id):
+                    vals.add("len")
+                elif M.match(("bin", "add", ("param", 2), 1), s_, {}) is not None:
+                    vals.add("len+1")
+                else:
+                    vals.add(describe(pd, s_))
+            srs_done = vals <= {"len", "len+1"} and "len" in vals or vals == {"len+1"}
+            if srs_done:
+                rep.ok(rid, "path header: every 0xFF below the (possibly extended) length is found by memchr and replaced by '/' (%s)" % sorted(vals), None, pd.file)
+        rep.check(rid, len(ok) == 1 or srs_done, "path header: every byte below the (possibly extended) length has 0xFF replaced (by '/')", pd.file,
                   "%s" % [(_ranges(b.final_values), b.exit) for b in loops], function=pd.cname, obj="ff")
         for bl in ok:
             rep.check(rid, any(p["stores"] == SLASH and p["admits"] == "0xff" for p in bl.path_detail), "the replacement byte is '/'", pd.file, None, function=pd.cname, obj="repl")
